@@ -18,7 +18,7 @@ func init() {
 		Technique: "normaliser-chain agreement between the writer (buildHostRoute -> Trie.Set) and the reader (findHostRoute -> Trie.Get) of the host trie; feasible-path enumeration with phi resolution of LookupHostTagAndProduct, findHostRoute, findVipRoute, Trie.Get, Trie.Set and ReverseFqdnHost (branch facts, value-flow of the winning route and of the error); who-may-write census of the trie and host-table fields; reachability in ReverseProxy.ServeHTTP",
 		Meta: core.Meta{
 			Level:       "other",
-			Explanation: "Decides: (a) the key stored by buildHostRoute is Split(\".\") of ReverseFqdnHost of ToLower of each key of conf.HostMap (every entry, none skipped), the value is route{product: conf.HostTagMap[tag], tag}; the key looked up by findHostRoute is the same chain applied to the request host with the port strip (first element of a split at \":\") applied before the reversal — the chains agree modulo that reader-only step; ReverseFqdnHost drops one leading '.' of the reversed name (the trailing dot of the host) only after testing len > 0, and swaps runes pairwise; (b) on every feasible path of LookupHostTagAndProduct the host lookup comes first with req.HttpRequest.Host, the VIP lookup (on req.Session.Vip) happens only after the host lookup failed, the default product is used only after host failed, VIP was absent or failed, and defaultProduct != \"\"; Route.Product/HostTag come from the winning source, Route.Error and the returned error are the same value, nil iff a source won; findHostRoute/findVipRoute return nil error only on a successful trie/map lookup (the trie only under hostTrie != nil) and ErrNoProduct otherwise; (c) Trie.Get returns the exact entry on an empty path, descends into Children[path[0]] with path[1:], returns SplatEntry (ok=true) only when the descent produced a nil entry and SplatEntry != nil, and returns the child's entry whenever it is non-nil (exact before wildcard, deeper wildcard before shallower); Trie.Set records SplatEntry only for a final \"*\" label and descends symmetrically; trie fields and HostTable.hostTrie/defaultProduct/vipTable are written only by the trie package / the update functions; (d) findProduct, FindLocation and HostTable.Lookup propagate the error and ServeHTTP reaches neither findCluster nor clusterInvoke after a failed findProduct. Not covered: longest-suffix correctness of the trie over all tables as a whole (only the per-node preference is decided), Unicode case folding of ToLower, host names carrying IPv6 literals, duplicate hosts after case folding (C14).",
+			Explanation: "Decides: (a) the key stored by buildHostRoute is Split(\".\") of ReverseFqdnHost of ToLower of each key of conf.HostMap (every entry, none skipped), the value is route{product: conf.HostTagMap[tag], tag}; the key looked up by findHostRoute is the same chain applied to the request host with the port strip (first element of a split at \":\") applied before the reversal — the chains agree modulo that reader-only step; ReverseFqdnHost drops one leading '.' of the reversed name (the trailing dot of the host) only after testing len > 0, and swaps runes pairwise; (b) on every feasible path of LookupHostTagAndProduct the host lookup comes first with req.HttpRequest.Host, the VIP lookup (on req.Session.Vip) happens only after the host lookup failed, the default product is used only after host failed, VIP was absent or failed, and defaultProduct != \"\"; Route.Product/HostTag come from the winning source, Route.Error and the returned error are the same value, nil iff a source won; findHostRoute/findVipRoute return nil error only on a successful trie/map lookup (the trie only under hostTrie != nil) and ErrNoProduct otherwise; (c) Trie.Get returns the exact entry on an empty path, descends into Children[path[0]] with path[1:], returns SplatEntry (ok=true) only when the descent produced a nil entry and SplatEntry != nil, and returns the child's entry whenever it is non-nil (exact before wildcard, deeper wildcard before shallower); Trie.Set records SplatEntry only for a final \"*\" label and descends symmetrically; trie fields and HostTable.hostTrie/defaultProduct/vipTable are written only by the trie package / the update functions; (d) findProduct, FindLocation and HostTable.Lookup propagate the error and ServeHTTP reaches neither findCluster nor clusterInvoke after a failed findProduct. Form-independence: paths continue through unexported functions and local closures of the analysed package (a stage of the fallback chain or a finder body extracted into a helper: parameters resolve to the arguments of the call, results to the values returned on that path), key chains continue from a helper parameter to the argument at its single call site and through helpers with several returns when all returns that can execute agree; len(path) is read off any comparison of len(path) or len(path[k:]) with a constant; branches that cannot be taken on any input add no path (len(strings.Split(s, sep)) < 1 for a constant non-empty sep, the failure branch of a checked type assertion to the only type package bfe_route ever stores in a trie), and ReverseFqdnHost may return the empty host unreversed. Not covered: longest-suffix correctness of the trie over all tables as a whole (only the per-node preference is decided), the value clauses of buildHostRoute (source, value-tag, value-product, every-entry) when the Trie.Set call is moved out of buildHostRoute into a helper (reported as not established), a helper continued through more than once on one path (its parameters resolve to the latest call), Unicode case folding of ToLower, host names carrying IPv6 literals, duplicate hosts after case folding (C14).",
 			RuleText:    "obligations = each normaliser-chain clause of the Set/Get call sites, one per (clause, path class) of the enumerated functions, each field writer, each propagating caller, the ServeHTTP reachability query",
 			Assumptions: []string{"strings.ToLower/Split and go/ssa semantics", "a request is served by one goroutine: fields of req re-loaded within one function keep their value"},
 		},
@@ -46,6 +46,10 @@ func init() {
 			{Name: "silent-rename-params", Silent: true, File: "bfe_route/host_table.go", Old: "func (t *HostTable) findHostRoute(host string) (route, error) {\n	if t.hostTrie == nil {\n		return route{}, ErrNoProduct\n	}\n\n	host = strings.ToLower(host)\n	// get host-tag by hostname\n	match, ok := t.hostTrie.Get(strings.Split(string_reverse.ReverseFqdnHost(hostnameStrip(host)), \".\"))", New: "func (tbl *HostTable) findHostRoute(name string) (route, error) {\n	if tbl.hostTrie == nil {\n		return route{}, ErrNoProduct\n	}\n\n	stripped := hostnameStrip(name)\n	lower := strings.ToLower(stripped)\n	rev := string_reverse.ReverseFqdnHost(lower)\n	// get host-tag by hostname\n	match, ok := tbl.hostTrie.Get(strings.Split(rev, \".\"))"},
 			{Name: "silent-nested-fallback", Silent: true, File: "bfe_route/host_table.go", Old: "	// if failed, use default proudct\n	if err != nil && t.defaultProduct != \"\" {\n		hostRoute, err = route{product: t.defaultProduct}, nil\n	}", New: "	// if failed, use default proudct\n	if err != nil {\n		if dp := t.defaultProduct; dp != \"\" {\n			hostRoute = route{product: dp}\n			err = nil\n		}\n	}"},
 			{Name: "silent-inline-strip", Silent: true, File: "bfe_route/host_table.go", Old: "string_reverse.ReverseFqdnHost(hostnameStrip(host)), \".\"))", New: "string_reverse.ReverseFqdnHost(strings.SplitN(host, \":\", 2)[0]), \".\"))"},
+			{Name: "silent-fallback-stages-in-helper", Silent: true, File: "bfe_route/host_table.go", Old: "	// if failed, try to lookup product by visited vip\n	if err != nil {\n		if vip := req.Session.Vip; vip != nil {\n			hostRoute, err = t.findVipRoute(vip.String())\n		}\n	}\n\n	// if failed, use default proudct\n	if err != nil && t.defaultProduct != \"\" {\n		hostRoute, err = route{product: t.defaultProduct}, nil\n	}\n\n	// set hostTag and product\n	req.Route.HostTag = hostRoute.tag\n	req.Route.Product = hostRoute.product\n	req.Route.Error = err\n\n	return err\n}\n", New: "	// if failed, try the vip table, then the default product\n	if err != nil {\n		hostRoute, err = t.vipOrDefaultRoute(req, hostRoute, err)\n	}\n\n	// set hostTag and product\n	req.Route.HostTag = hostRoute.tag\n	req.Route.Product = hostRoute.product\n	req.Route.Error = err\n\n	return err\n}\n\nfunc (t *HostTable) vipOrDefaultRoute(req *bfe_basic.Request, found route, err error) (route, error) {\n	if vip := req.Session.Vip; vip != nil {\n		found, err = t.findVipRoute(vip.String())\n	}\n	if err != nil && t.defaultProduct != \"\" {\n		found, err = route{product: t.defaultProduct}, nil\n	}\n	return found, err\n}\n"},
+			{Name: "silent-star-length-respelled", Silent: true, File: "bfe_route/trie/trie.go", Old: "		if len(path) != 1 {\n			return errors.New(\"* should be last element\")", New: "		if len(path[1:]) > 0 {\n			return errors.New(\"* should be last element\")"},
+			{Name: "silent-strip-defensive-length-check", Silent: true, File: "bfe_route/host_table.go", Old: "	return strings.Split(hostname, \":\")[0]", New: "	parts := strings.Split(hostname, \":\")\n	if len(parts) < 1 {\n		return \"\"\n	}\n	return parts[0]"},
+			{Name: "silent-reverse-empty-host-early-return", Silent: true, File: "bfe_util/string_reverse/string_reverse.go", Old: "	r := []rune(host)\n	for i, j", New: "	if len(host) == 0 {\n		return host\n	}\n	r := []rune(host)\n	for i, j"},
 		},
 	})
 }
@@ -104,12 +108,15 @@ func c10Chains(c *core.Ctx) {
 		return out
 	}
 	var writeChain, readChain []string
-	sets := core.Calls(bh, setFn)
-	c.Check("host-key", "buildHostRoute:set-sites", bh.Pos(), len(sets) == 1, fmt.Sprintf("expected one Trie.Set call in buildHostRoute, found %d", len(sets)))
+	sets := c.P.RegionCalls(bh, setFn)
+	c.Check("host-key", "buildHostRoute:set-sites", bh.Pos(), len(sets) >= 1, fmt.Sprintf("expected a Trie.Set call in buildHostRoute (or a private helper of it), found %d", len(sets)))
 	for _, s := range sets {
 		args := s.Common().Args
-		steps, root := rtChain(args[1], nil)
+		steps, root := rtChainRegion(c.P, args[1])
 		steps = rtCanonChain(steps)
+		if writeChain != nil && rtJoin(writeChain) != rtJoin(steps) {
+			c.Check("host-key", "buildHostRoute:one-key-form", s.Pos(), false, "hosts are stored under differently normalised keys at different Trie.Set sites: ["+rtJoin(writeChain)+"] and ["+rtJoin(steps)+"]")
+		}
 		writeChain = steps
 		desc := rtJoin(steps) + " of " + core.Render(root)
 		c.Check("host-key", "buildHostRoute:split", s.Pos(), len(steps) > 0 && steps[0] == "split(.)", "the trie path stored is "+desc+"; the outermost step must split the reversed name at \".\" into labels")
@@ -181,12 +188,15 @@ func c10Chains(c *core.Ctx) {
 		}
 		c.Check("host-key", "buildHostRoute:returns-built-trie", s.Pos(), retOK, "buildHostRoute must return the fresh trie it filled")
 	}
-	gets := core.Calls(fh, getFn)
-	c.Check("host-key", "findHostRoute:get-sites", fh.Pos(), len(gets) == 1, fmt.Sprintf("expected one Trie.Get call in findHostRoute, found %d", len(gets)))
+	gets := c.P.RegionCalls(fh, getFn)
+	c.Check("host-key", "findHostRoute:get-sites", fh.Pos(), len(gets) >= 1, fmt.Sprintf("expected a Trie.Get call in findHostRoute (or a private helper of it), found %d", len(gets)))
 	for _, g := range gets {
 		args := g.Common().Args
-		steps, root := rtChain(args[1], nil)
+		steps, root := rtChainRegion(c.P, args[1])
 		steps = rtCanonChain(steps)
+		if readChain != nil && rtJoin(readChain) != rtJoin(steps) {
+			c.Check("host-key", "findHostRoute:one-key-form", g.Pos(), false, "the host is looked up under differently normalised keys at different Trie.Get sites: ["+rtJoin(readChain)+"] and ["+rtJoin(steps)+"]")
+		}
 		readChain = steps
 		desc := rtJoin(steps) + " of " + core.Render(root)
 		c.Check("host-key", "findHostRoute:split", g.Pos(), len(steps) > 0 && steps[0] == "split(.)", "the trie path looked up is "+desc+"; the outermost step must split at \".\"")
@@ -197,9 +207,9 @@ func c10Chains(c *core.Ctx) {
 		c.Check("host-key", "findHostRoute:portstrip", g.Pos(), count(steps, "portstrip") == 1 && rv >= 0 && ps > rv, "the trie path looked up is "+desc+"; the \":port\" suffix must be removed (first element of a split at \":\") before the name is reversed")
 		par, isPar := root.(*ssa.Parameter)
 		c.Check("host-key", "findHostRoute:source", g.Pos(), isPar && len(fh.Params) == 2 && par == fh.Params[1], "the name looked up derives from "+core.Render(root)+", expected the host parameter")
-		c.Check("host-key", "findHostRoute:receiver", g.Pos(), rtAP(args[0]) == "p0.hostTrie", "the trie consulted is "+core.Render(args[0])+", expected t.hostTrie")
+		c.Check("host-key", "findHostRoute:receiver", g.Pos(), rtAPRegion(c.P, args[0]) == "p0.hostTrie", "the trie consulted is "+core.Render(args[0])+", expected t.hostTrie")
 	}
-	if len(sets) == 1 && len(gets) == 1 {
+	if len(sets) >= 1 && len(gets) >= 1 {
 		c.Check("host-key", "agreement", fh.Pos(), rtJoin(writeChain) == rtJoin(rtWithout(readChain, "portstrip")),
 			"writer chain ["+rtJoin(writeChain)+"] and reader chain ["+rtJoin(readChain)+"] differ by more than the reader-only port strip: stored and looked-up keys are normalised differently")
 	}
@@ -282,6 +292,11 @@ func c10Reverse(c *core.Ctx) {
 		}
 		cv, ok := rets[0].(*ssa.Convert)
 		if !ok {
+			// the empty host reverses to itself: a path that established host == "" may return "" (or host) directly
+			if empty, known := p.lenIs(rn, func(v ssa.Value) bool { return v == ssa.Value(fn.Params[0]) }, 0); known && empty && (rtConstStr(rets[0], "") || rets[0] == ssa.Value(fn.Params[0])) {
+				agg.add("trailing-dot", "ReverseFqdnHost:empty-host", p.pos(rn), true, "")
+				continue
+			}
 			agg.add("trailing-dot", "ReverseFqdnHost:result", p.pos(rn), false, "the result is not a conversion of the rune slice: "+core.Render(rets[0]))
 			continue
 		}
@@ -324,12 +339,17 @@ func c10Fallback(c *core.Ctx) {
 		return
 	}
 	c.Analysed(core.FuncKey(fn))
-	paths, complete := rtPaths(fn, 2)
+	for _, g := range c.P.Region(fn) {
+		c.Analysed(core.FuncKey(g))
+	}
+	// paths continue through private helpers (an extracted fallback chain); the two finders stay opaque anchors
+	paths, complete := rtPathsR(fn, 2, hostFn, vipFn)
 	c.Check("paths", "LookupHostTagAndProduct:enumeration", fn.Pos(), complete && len(paths) >= 3, fmt.Sprintf("%d feasible paths (complete=%v); at least 3 expected (host, vip, default after vip failure / without vip, none)", len(paths), complete))
 	c.Note("LookupHostTagAndProduct: %d feasible paths", len(paths))
 	agg := newRtAgg(c)
-	isDefault := func(v ssa.Value) bool { return rtAP(v) == "p0.defaultProduct" }
 	for _, p := range paths {
+		p := p
+		isDefault := func(v ssa.Value) bool { return p.AP(len(p.Items), v) == "p0.defaultProduct" }
 		rets, rn := p.ret()
 		if rn < 0 || len(rets) != 1 {
 			agg.add("paths", "LookupHostTagAndProduct:exit", fn.Pos(), false, "a path does not end in a one-result return")
@@ -435,7 +455,7 @@ func c10Fallback(c *core.Ctx) {
 		class := fmt.Sprintf("LookupHostTagAndProduct:host=%s,vip=%s,product=%s", H, V, prod)
 		// ---- order
 		ok, why := true, ""
-		if rtAP(hc.Call.Args[1]) != "p1.HttpRequest.Host" {
+		if p.AP(hcs[0], hc.Call.Args[1]) != "p1.HttpRequest.Host" {
 			ok, why = false, "the host looked up is "+core.Render(hc.Call.Args[1])+", expected req.HttpRequest.Host"
 		}
 		if vc != nil {
@@ -443,9 +463,9 @@ func c10Fallback(c *core.Ctx) {
 			if !known || isNil || vcs[0] < hcs[0] {
 				ok, why = false, "the VIP table is consulted on a path that has not seen the host lookup fail"
 			}
-			arg := vc.Call.Args[1]
+			arg := p.R(vcs[0], vc.Call.Args[1])
 			sc, isCall := arg.(*ssa.Call)
-			if !isCall || !core.CallIs(&sc.Call, "net.IP.String") || rtAP(sc.Call.Args[0]) != "p1.Session.Vip" {
+			if !isCall || !core.CallIs(&sc.Call, "net.IP.String") || p.AP(vcs[0], sc.Call.Args[0]) != "p1.Session.Vip" {
 				ok, why = false, "the VIP looked up is "+core.Render(arg)+", expected req.Session.Vip.String()"
 			}
 		}
@@ -514,18 +534,32 @@ func c10Finders(c *core.Ctx) {
 	const getFn = "bfe_route/trie.Trie.Get"
 	agg := newRtAgg(c)
 	if fn := c.P.Func(rt, "HostTable.findHostRoute"); fn != nil {
-		paths, complete := rtPaths(fn, 2)
+		paths, complete := rtPathsR(fn, 2)
 		agg.add("host-lookup", "findHostRoute:enumeration", fn.Pos(), complete && len(paths) >= 2, fmt.Sprintf("%d feasible paths (complete=%v)", len(paths), complete))
 		for _, p := range paths {
+			p := p
 			rets, rn := p.ret()
 			if rn < 0 || len(rets) != 2 {
 				continue
 			}
 			gets := p.calls(getFn)
+			// a checked type assertion `v, ok := entry.(T)` on a trie entry cannot fail when every value
+			// stored in a trie by this package is a T: the !ok branch is a defensive check that never fires
+			dead := false
+			for _, f := range p.Facts {
+				if ex, isEx := f.V.(*ssa.Extract); isEx && f.Op == token.ILLEGAL && !f.Pol && ex.Index == 1 {
+					if ta, isTA := ex.Tuple.(*ssa.TypeAssert); isTA && ta.CommaOk && rtResultOf(p.R(f.I, ta.X), 0, getFn) != nil && c10TrieHoldsOnly(c, ta.AssertedType) {
+						dead = true
+					}
+				}
+			}
+			if dead {
+				continue
+			}
 			hit := -1
 			for _, gi := range gets {
 				call := p.Items[gi].In.(*ssa.Call)
-				isNil, known := p.eqFact(gi, func(v ssa.Value) bool { return rtAP(v) == "p0.hostTrie" }, rtIsNil)
+				isNil, known := p.eqFact(gi, func(v ssa.Value) bool { return p.AP(gi, v) == "p0.hostTrie" }, rtIsNil)
 				agg.add("host-lookup", "findHostRoute:nil-guard", call.Pos(), known && !isNil, "Trie.Get is called on t.hostTrie on a path that did not establish hostTrie != nil (nil dereference before the first host table load)")
 				if okv := rtExtractOf(call, 1); okv != nil {
 					if pol, known := p.factAfter(gi, okv); known && pol {
@@ -536,8 +570,17 @@ func c10Finders(c *core.Ctx) {
 			if rtIsNil(rets[1]) {
 				ok := false
 				if hit >= 0 {
-					if ta, isTA := rets[0].(*ssa.TypeAssert); isTA && ta.X == rtExtractOf(p.Items[hit].In.(*ssa.Call), 0) {
+					entry := rtExtractOf(p.Items[hit].In.(*ssa.Call), 0)
+					if ta, isTA := rets[0].(*ssa.TypeAssert); isTA && !ta.CommaOk && entry != nil && p.R(rn, ta.X) == entry {
 						ok = true
+					}
+					// checked form: v, ok := entry.(route) with ok established
+					if ex, isEx := rets[0].(*ssa.Extract); isEx && ex.Index == 0 {
+						if ta, isTA := ex.Tuple.(*ssa.TypeAssert); isTA && ta.CommaOk && entry != nil && p.R(rn, ta.X) == entry {
+							if pol, known := p.boolFact(rn, rtExtractOf(ta, 1)); known && pol {
+								ok = true
+							}
+						}
 					}
 				}
 				agg.add("host-lookup", "findHostRoute:success", p.pos(rn), ok, "findHostRoute returns a nil error without a successful Trie.Get whose entry is the returned route (returns "+core.Render(rets[0])+")")
@@ -550,7 +593,7 @@ func c10Finders(c *core.Ctx) {
 		c.Missing(rt + ".HostTable.findVipRoute")
 	} else {
 		c.Analysed(core.FuncKey(fn))
-		paths, complete := rtPaths(fn, 2)
+		paths, complete := rtPathsR(fn, 2)
 		agg.add("host-lookup", "findVipRoute:enumeration", fn.Pos(), complete && len(paths) >= 2, fmt.Sprintf("%d feasible paths (complete=%v)", len(paths), complete))
 		for _, p := range paths {
 			rets, rn := p.ret()
@@ -559,7 +602,7 @@ func c10Finders(c *core.Ctx) {
 			}
 			var hit *ssa.Lookup
 			for i, it := range p.Items {
-				if lk, ok := it.In.(*ssa.Lookup); ok && lk.CommaOk && rtAP(lk.X) == "p0.vipTable" && len(fn.Params) == 2 && lk.Index == fn.Params[1] {
+				if lk, ok := it.In.(*ssa.Lookup); ok && lk.CommaOk && p.AP(i, lk.X) == "p0.vipTable" && len(fn.Params) == 2 && p.R(i, lk.Index) == ssa.Value(fn.Params[1]) {
 					if okv := rtExtractOf(lk, 1); okv != nil {
 						if pol, known := p.factAfter(i, okv); known && pol {
 							hit = lk
@@ -595,6 +638,29 @@ func c10Finders(c *core.Ctx) {
 		c.Check("sentinel-writers", "ErrNoProduct", token.NoPos, len(ws) == 0, "ErrNoProduct is reassigned by "+strings.Join(ws, ", "))
 		c.Check("sentinel-writers", "ErrNoProduct:initialised", token.NoPos, rtGlobalInitNonNil(c, rt, "ErrNoProduct"), "ErrNoProduct is not initialised with errors.New/fmt.Errorf in the package initialiser")
 	}
+}
+
+// c10TrieHoldsOnly: every value handed to Trie.Set by package bfe_route (the
+// only package that fills a host trie, see the census) is of type t.
+func c10TrieHoldsOnly(c *core.Ctx, t types.Type) bool {
+	n := 0
+	for _, fn := range c.P.SrcFuncs("") {
+		if core.FuncPkgRel(fn) == "bfe_route/trie" {
+			continue // the recursive descent hands on the caller's value
+		}
+		for _, call := range core.Calls(fn, "bfe_route/trie.Trie.Set") {
+			args := call.Common().Args
+			if len(args) != 3 {
+				return false
+			}
+			mi, ok := args[2].(*ssa.MakeInterface)
+			if !ok || !types.Identical(mi.X.Type(), t) {
+				return false
+			}
+			n++
+		}
+	}
+	return n > 0
 }
 
 // ---- (c) trie -------------------------------------------------------------
@@ -646,7 +712,7 @@ func c10TrieGet(c *core.Ctx) {
 		if rn < 0 || len(rets) != 2 {
 			continue
 		}
-		empty, emptyKnown := p.eqFact(len(p.Items), func(v ssa.Value) bool { return c10IsLenOf(v, fn.Params[1]) }, func(v ssa.Value) bool { k, ok := rtConstInt(v); return ok && k == 0 })
+		empty, emptyKnown := p.lenIs(len(p.Items), func(v ssa.Value) bool { return v == ssa.Value(fn.Params[1]) }, 0)
 		recs := p.calls(getFn)
 		if emptyKnown && empty {
 			ge := p.calls(tr + ".Trie.getEntry")
@@ -756,7 +822,8 @@ func c10TrieSet(c *core.Ctx) {
 	paths, complete := rtPaths(fn, 2)
 	agg := newRtAgg(c)
 	agg.add("trie-set", "Trie.Set:enumeration", fn.Pos(), complete && len(paths) >= 2, fmt.Sprintf("%d feasible paths (complete=%v)", len(paths), complete))
-	isLen := func(v ssa.Value) bool { return c10IsLenOf(v, fn.Params[1]) }
+	// len(path) is read off every spelling of the test: len(path) or len(path[1:]) against a constant
+	isPath := func(v ssa.Value) bool { return v == ssa.Value(fn.Params[1]) }
 	isStar := func(v ssa.Value) bool { return rtConstStr(v, "*") }
 	isL0 := func(v ssa.Value) bool { return c10Label0(fn, 1, v) }
 	for _, p := range paths {
@@ -764,7 +831,7 @@ func c10TrieSet(c *core.Ctx) {
 		if rn < 0 || len(rets) != 1 {
 			continue
 		}
-		empty, emptyKnown := p.eqFact(len(p.Items), isLen, func(v ssa.Value) bool { k, ok := rtConstInt(v); return ok && k == 0 })
+		empty, emptyKnown := p.lenIs(len(p.Items), isPath, 0)
 		recs := p.calls(setFn)
 		if emptyKnown && empty {
 			se := p.calls(tr + ".Trie.setEntry")
@@ -781,12 +848,12 @@ func c10TrieSet(c *core.Ctx) {
 			continue
 		}
 		star, starKnown := p.eqFact(len(p.Items), isL0, isStar)
-		one, oneKnown := p.eqFact(len(p.Items), isLen, func(v ssa.Value) bool { k, ok := rtConstInt(v); return ok && k == 1 })
+		one, oneKnown := p.lenIs(len(p.Items), isPath, 1)
 		splatAt := p.lastStore(len(p.Items), func(s *ssa.Store) bool { return rtAP(s.Addr) == "p0.SplatEntry" })
 		if splatAt >= 0 {
 			st := p.Items[splatAt].In.(*ssa.Store)
 			s2, k2 := p.eqFact(splatAt, isL0, isStar)
-			o2, ko2 := p.eqFact(splatAt, isLen, func(v ssa.Value) bool { k, ok := rtConstInt(v); return ok && k == 1 })
+			o2, ko2 := p.lenIs(splatAt, isPath, 1)
 			agg.add("trie-set", "Trie.Set:splat-store", st.Pos(), k2 && s2 && ko2 && o2 && p.R(splatAt, st.Val) == ssa.Value(fn.Params[2]),
 				"SplatEntry is written on a path that did not establish path[0] == \"*\" and len(path) == 1, or with a value other than the one being inserted: a non-wildcard host would act as a wildcard")
 		}
